@@ -70,6 +70,33 @@
 (*           for a field outside the tables (Origin, Source ...: context   *)
 (*           the binding adds), which may be moved or serve as reference.  *)
 (*                                                                         *)
+(*   Refused                                                               *)
+(*           a call on the living object that is REFUSED is an ordinary    *)
+(*           step of a history: order_before / order_after(f, g) with an   *)
+(*           ABSENT reference g (an optional structured field the          *)
+(*           paragraph lacks, or an unknown name), an absent item f, or    *)
+(*           f = g; order_first / order_last(absent); del obj[absent];     *)
+(*           obj[absent]; and the calls that fail through an object the    *)
+(*           CALLER supplies (notes/SIZE_STRESS.md part 5):                *)
+(*           sort_fields(key) whose key function raises / returns          *)
+(*           incomparable keys for one field, dump(fd) whose fd.write      *)
+(*           raises at the k-th call, cls(file / iterator) that raises     *)
+(*           after some lines.  The caller catches the exception and       *)
+(*           carries on.  The statement knows no operation that makes a    *)
+(*           present structured field disappear except deleting or         *)
+(*           replacing it, so a refused call changes NOTHING (error        *)
+(*           atomicity): records, option, look-ups (fold) and the set of   *)
+(*           fields a dump writes (linked: field -> "the key is still      *)
+(*           reached by iterating over the paragraph"; dump() writes the   *)
+(*           fields it iterates over, obj[f] / f in obj go through the     *)
+(*           look-up table).  Fields: 0 = a present field outside the      *)
+(*           tables, 99 = an absent field outside the tables.              *)
+(*           RefusedUnlinksFirst = TRUE switches in "unlink the item,      *)
+(*           THEN look up the reference": after order_before(present,      *)
+(*           absent) the item is still answered by look-ups but no longer  *)
+(*           written: DumpExplains / RecordsRoundTrip are violated         *)
+(*           (MC_MultiValued_neg_refused.cfg).                             *)
+(*                                                                         *)
 (* The width computation needs the records of a field only where the width *)
 (* depends on them (PdiffIndex; Release with dak).  The design iterates    *)
 (* over the PRESENT fields.  IterateAllFields = TRUE switches in what the  *)
@@ -164,6 +191,7 @@ CONSTANTS Tables,            \* class -> <<[f |-> field name, subs |-> <<sub-fie
           ClassLevelOption,  \* negative control: size_field_behavior is shared by all Release objects
           StoreBeforeValidate, \* negative control: a rejected size_field_behavior value is stored nevertheless
           ReorderStoresPlainKeys, \* negative control: a re-ordering operation stores the moved keys as plain (case-sensitive) strings
+          RefusedUnlinksFirst, \* negative control: a relative re-ordering unlinks the item before it looks up the (absent) reference
           Emit,              \* print CASE lines (and the tables)
           EmitOff            \* rotates the sample of the modes with emitmod > 1 (set from the seed)
 
@@ -182,9 +210,10 @@ VARIABLES mode,              \* the enumeration mode: [name, uniform, maxf, heav
           nmut,              \* number of mutations applied to the object so far
           hist,              \* modes with maxmut > 0: the history (dumps with their expected layout, mutations)
           cache,             \* [valid, w]: remembered width table (always NoCache unless CacheWidths)
-          fold               \* present field -> its stored key compares case-insensitively (always TRUE unless ReorderStoresPlainKeys)
+          fold,              \* present field -> its stored key compares case-insensitively (always TRUE unless ReorderStoresPlainKeys)
+          linked             \* present field -> its key is reached by iteration, i.e. written by dump() (always TRUE unless RefusedUnlinksFirst)
 
-vars == <<mode, cls, start, opt, shape, para, phase, widths, text, parsed, res, nmut, hist, cache, fold>>
+vars == <<mode, cls, start, opt, shape, para, phase, widths, text, parsed, res, nmut, hist, cache, fold, linked>>
 beh  == opt.beh      \* the documented behaviour of this object
 
 ----------------------------------------------------------------------------
@@ -330,7 +359,7 @@ Init == /\ \E m \in Modes : /\ mode = [name |-> m.name, uniform |-> m.uniform, m
                                   /\ opt = [beh |-> b, set |-> st, shared |-> b]
                             /\ shape \in (IF m.uniform THEN m.shapes ELSE {NoShape})
         /\ para = <<>> /\ phase = "build" /\ widths = <<>> /\ text = <<>> /\ parsed = <<>> /\ res = "ok"
-        /\ nmut = 0 /\ hist = <<>> /\ cache = NoCache /\ fold = <<>>
+        /\ nmut = 0 /\ hist = <<>> /\ cache = NoCache /\ fold = <<>> /\ linked = <<>>
 
 \* obj[field] = [record, ...]  (or one mapping: single-line form)
 BuildWith(f, e) == /\ phase = "build"
@@ -338,6 +367,7 @@ BuildWith(f, e) == /\ phase = "build"
                    /\ MEntryOK(Subs(f), e) = TRUE     \* ("= TRUE": evaluated as a value, not expanded on the Java stack)
                    /\ para' = MExt(para, f, e)
                    /\ fold' = MExt(fold, f, TRUE)
+                   /\ linked' = MExt(linked, f, TRUE)
                    /\ cache' = NoCache
                    /\ UNCHANGED <<mode, cls, start, opt, shape, phase, widths, text, parsed, res, nmut, hist>>
 \* bounded enumeration: fields are added in table order (every subset is reached exactly once),
@@ -376,6 +406,8 @@ ShapeNo == IF mode.uniform
 StrCode(x) == CASE x = Apt -> 1 [] x = Dak -> 2 [] x = "-" -> 3 [] x = "Release" -> 4 [] x = "PdiffIndex" -> 5
                 [] x = "Changes" -> 6 [] x = "Dsc" -> 7 [] OTHER -> 8
 KindCode(x) == CASE x = "sort" -> 1 [] x = "sortkey" -> 2 [] x = "first" -> 3 [] x = "last" -> 4 [] x = "before" -> 5 [] OTHER -> 6
+RKindCode(x) == CASE x = "before" -> 1 [] x = "after" -> 2 [] x = "first" -> 3 [] x = "last" -> 4 [] x = "delete" -> 5
+                  [] x = "getitem" -> 6 [] x = "sortkey" -> 7 [] x = "dumpfault" -> 8 [] OTHER -> 9
 OpCode(e) == CASE e[1] = "dump" -> 1
                [] e[1] = "append"  -> 10 + e[2] + e[3][2][2]
                [] e[1] = "setsize" -> 20 + 3 * e[2] + 7 * e[3] + e[4][2]
@@ -384,6 +416,7 @@ OpCode(e) == CASE e[1] = "dump" -> 1
                [] e[1] = "setbeh"  -> 60 + StrCode(e[2])
                [] e[1] = "other"   -> 70 + 3 * StrCode(e[2]) + StrCode(e[3])
                [] e[1] = "reorder" -> 100 + 11 * KindCode(e[2]) + 5 * e[3] + 3 * e[4]
+               [] e[1] = "refused" -> 300 + 13 * RKindCode(e[2]) + 5 * (e[3] % 7) + 3 * (e[4] % 11)
                [] OTHER -> 90
 HistSum  == FoldSeq(LAMBDA e, acc : (acc * 31 + OpCode(e)) % 8191, 0, hist)
 Sampled  == \/ mode.emitmod = 1
@@ -398,6 +431,7 @@ Selected == IF mode.maxmut > 0
 \* (the width computation asks `key in self` for each of the class's lower-case table keys: it sees
 \*  the fields whose stored key answers a look-up in another spelling)
 Visible == {f \in DOMAIN para : fold[f]}
+Listed  == [f \in {h \in DOMAIN para : linked[h]} |-> para[f]]
 IterSet == IF IterateAllFields THEN 1..NFields ELSE Visible
 \* the behaviour the dump goes by: the object's own option (negative control: the class-level one)
 EBeh    == IF ClassLevelOption /\ cls = "Release" THEN opt.shared ELSE opt.beh
@@ -408,14 +442,14 @@ Widths == /\ phase = "build"
           /\ widths' = (IF res' = "ok" THEN WTable ELSE <<>>)
           /\ cache' = (IF CacheWidths /\ res' = "ok" THEN [valid |-> TRUE, w |-> WTable] ELSE cache)
           /\ phase' = "widths"
-          /\ UNCHANGED <<mode, cls, start, opt, shape, para, text, parsed, nmut, hist, fold>>
+          /\ UNCHANGED <<mode, cls, start, opt, shape, para, text, parsed, nmut, hist, fold, linked>>
 \* second half: every present field is written with its width
 \* (a mode with heavy = FALSE goes on only with the paragraphs that are printed as CASE lines)
 Write  == /\ phase = "widths" /\ res = "ok"
           /\ (IF mode.heavy THEN TRUE ELSE Selected)
-          /\ text' = MCanonText(Tables, cls, para, widths)
+          /\ text' = MCanonText(Tables, cls, Listed, widths)      \* dump() writes the fields it iterates over
           /\ phase' = "dumped"
-          /\ UNCHANGED <<mode, cls, start, opt, shape, para, widths, parsed, res, nmut, hist, cache, fold>>
+          /\ UNCHANGED <<mode, cls, start, opt, shape, para, widths, parsed, res, nmut, hist, cache, fold, linked>>
 \* both halves in one step, with t as the text written (trace validation: t = the observed text)
 DumpTo(t) == /\ phase = "build"
              /\ res' = MDumpRes(cls, EBeh, DOMAIN para, IterSet)
@@ -423,14 +457,14 @@ DumpTo(t) == /\ phase = "build"
              /\ cache' = (IF CacheWidths /\ res' = "ok" THEN [valid |-> TRUE, w |-> WTable] ELSE cache)
              /\ text' = (IF res' = "ok" THEN t ELSE <<>>)
              /\ phase' = "dumped"
-             /\ UNCHANGED <<mode, cls, start, opt, shape, para, parsed, nmut, hist, fold>>
+             /\ UNCHANGED <<mode, cls, start, opt, shape, para, parsed, nmut, hist, fold, linked>>
 
 \* cls(text): every line of every structured field becomes a record
 Parse == /\ phase = "dumped" /\ res = "ok"
          /\ parsed' = [f \in DOMAIN text |-> MParseField(Subs(f), text[f], SplitEverySpace)]
          /\ phase' = "parsed" /\ text' = <<>>
          /\ hist' = (IF mode.maxmut > 0 THEN Append(hist, <<"dump", CaseF(parsed')>>) ELSE hist)
-         /\ UNCHANGED <<mode, cls, start, opt, shape, para, widths, res, nmut, cache, fold>>
+         /\ UNCHANGED <<mode, cls, start, opt, shape, para, widths, res, nmut, cache, fold, linked>>
          /\ (Emit /\ Selected) => PrintT(<<"CASE", ToJson(CaseOf(parsed', hist'))>>)
 
 \* the parsed paragraph is an object like the one that was built: it can be dumped again
@@ -438,6 +472,7 @@ Parse == /\ phase = "dumped" /\ res = "ok"
 Load == /\ phase = "parsed" /\ mode.heavy /\ mode.maxmut = 0
         /\ para' = MUntag(parsed)
         /\ fold' = [f \in DOMAIN parsed |-> TRUE]        \* a fresh object
+        /\ linked' = [f \in DOMAIN parsed |-> TRUE]
         /\ phase' = "build" /\ widths' = <<>> /\ text' = <<>> /\ parsed' = <<>>
         /\ cache' = NoCache
         /\ UNCHANGED <<mode, cls, start, opt, shape, res, nmut, hist>>
@@ -452,7 +487,7 @@ AfterMut(entry) == /\ phase' = "build" /\ widths' = <<>> /\ text' = <<>> /\ pars
 AppendRec(f, rec) == /\ Mutable /\ f \in Visible /\ para[f].form = "multi"
                      /\ Len(rec) = Len(Subs(f))
                      /\ para' = [para EXCEPT ![f].recs = Append(@, rec)]
-                     /\ UNCHANGED <<cache, opt, fold>>
+                     /\ UNCHANGED <<cache, opt, fold, linked>>
                      /\ AfterMut(<<"append", f, MPairs(rec)>>)
 \* obj[field][r]['size'] = token: in place, position r only
 \* (negative control: every position of a PARSED list that holds the same content is the same object)
@@ -463,34 +498,36 @@ SetSize(f, r, tok) ==
                   THEN {q \in 1..Len(rs) : rs[q] = rs[r]} ELSE {r}
        IN  para' = [para EXCEPT ![f].recs = [q \in 1..Len(rs) |->
                         IF q \in hit THEN [rs[q] EXCEPT ![MSizeCol(Subs(f))] = tok] ELSE rs[q]]]
-    /\ UNCHANGED <<cache, opt, fold>>
+    /\ UNCHANGED <<cache, opt, fold, linked>>
     /\ AfterMut(<<"setsize", f, r, <<tok.id, tok.len>>>>)
 \* obj[field] = [record, ...]: the whole list is replaced (or the field added) by assignment
 Assign(f, e) == /\ Mutable /\ f \in 1..NFields /\ MEntryOK(Subs(f), e) = TRUE
                 /\ para' = MExt(para, f, e)
                 /\ fold' = MExt(fold, f, TRUE)
+                /\ linked' = (IF f \in DOMAIN linked THEN linked ELSE MExt(linked, f, TRUE))   \* (a key that is there is not added again)
                 /\ cache' = NoCache /\ UNCHANGED opt
                 /\ AfterMut(<<"assign", f, [r \in 1..Len(e.recs) |-> MPairs(e.recs[r])]>>)
 \* del obj[field]
 Delete(f) == /\ Mutable /\ f \in Visible
              /\ para' = [g \in DOMAIN para \ {f} |-> para[g]]
              /\ fold' = [g \in DOMAIN para \ {f} |-> fold[g]]
+             /\ linked' = [g \in DOMAIN para \ {f} |-> linked[g]]
              /\ cache' = NoCache /\ UNCHANGED opt
              /\ AfterMut(<<"delete", f>>)
 \* obj.size_field_behavior = v: state of THIS object
 SetBeh(v) == /\ cls = "Release" /\ v \in {Apt, Dak}
              /\ opt' = [beh |-> v, set |-> TRUE, shared |-> IF ClassLevelOption THEN v ELSE opt.shared]
-             /\ cache' = NoCache /\ UNCHANGED <<para, fold>>
+             /\ cache' = NoCache /\ UNCHANGED <<para, fold, linked>>
              /\ AfterMut(<<"setbeh", v>>)
 \* obj.size_field_behavior = <an illegal value> raises (and the caller goes on): nothing changes
 SetBehFails == /\ cls = "Release"
                /\ opt' = (IF StoreBeforeValidate THEN [opt EXCEPT !.beh = "illegal"] ELSE opt)
-               /\ UNCHANGED <<para, cache, fold>>
+               /\ UNCHANGED <<para, cache, fold, linked>>
                /\ AfterMut(<<"setbehfails">>)
 \* a step of ANOTHER live object of class c (created if need be; v # "-": its size_field_behavior
 \* is set to v; it is dumped): nothing of this object changes
 OtherSet(c, v) == /\ opt' = [opt EXCEPT !.shared = IF ClassLevelOption /\ c = "Release" /\ v # "-" THEN v ELSE @]
-                  /\ UNCHANGED <<para, cache, fold>>
+                  /\ UNCHANGED <<para, cache, fold, linked>>
                   /\ AfterMut(<<"other", c, v>>)
 \* obj.sort_fields() / obj.sort_fields(key function) / obj.order_first(f) / order_last(f) /
 \* order_before(f, g) / order_after(f, g): the ORDER of the fields changes (not modelled), nothing
@@ -510,8 +547,40 @@ Reorder(kind, f, g) ==
     /\ fold' = (IF ReorderStoresPlainKeys
                 THEN [h \in DOMAIN fold |-> IF kind \in ReorderAll \/ h = f THEN FALSE ELSE fold[h]]
                 ELSE fold)
-    /\ UNCHANGED <<para, cache, opt>>
+    /\ UNCHANGED <<para, cache, opt, linked>>
     /\ AfterMut(<<"reorder", kind, f, g>>)
+\* a REFUSED call on the living object (the caller catches the exception and carries on): nothing
+\* changes.  kind: "before" / "after" (f or g absent, or f = g), "first" / "last" / "delete" / "getitem"
+\* (f absent), "sortkey" (the key function faults), "dumpfault" (fd.write faults), "parsefault"
+\* (another paragraph is made from a faulting file / iterator).  f, g: a structured field (present or
+\* absent), 0 = a present field outside the tables, NoField = an absent field outside the tables.
+\* (negative control: order_before / order_after unlink the item BEFORE they look up the reference)
+NoField      == 99
+RefusedFault == {"sortkey", "dumpfault", "parsefault"}
+RefusedGone  == {"first", "last", "delete", "getitem"}
+RefusedKinds == ReorderRel \cup RefusedGone \cup RefusedFault
+MAbsent(x, n, present) == x = NoField \/ (x \in 1..n /\ x \notin present)
+MHere(x, present)      == x = 0 \/ x \in present
+MRefusedOK(kind, f, g, n, present) ==
+    \/ /\ kind \in ReorderRel
+       /\ \/ MHere(f, present) /\ MAbsent(g, n, present)
+          \/ MAbsent(f, n, present) /\ (MHere(g, present) \/ MAbsent(g, n, present))
+          \/ MHere(f, present) /\ f = g
+    \/ kind \in RefusedGone /\ MAbsent(f, n, present) /\ g = 0
+    \/ kind \in RefusedFault /\ f = 0 /\ g = 0
+Refused(kind, f, g) ==
+    /\ phase \in {"build", "dumped", "parsed"} /\ res = "ok"
+    /\ MRefusedOK(kind, f, g, NFields, DOMAIN para) = TRUE
+    /\ linked' = (IF RefusedUnlinksFirst /\ kind \in ReorderRel /\ f \in DOMAIN para /\ MAbsent(g, NFields, DOMAIN para)
+                  THEN [linked EXCEPT ![f] = FALSE] ELSE linked)
+    /\ UNCHANGED <<para, cache, opt, fold>>
+    /\ AfterMut(<<"refused", kind, f, g>>)
+\* bounded enumeration: one absent structured field (the first one) and NoField stand for the absent fields
+RefusedArgs == LET gone == (1..NFields) \ DOMAIN para
+               IN  DOMAIN para \cup {0, NoField} \cup (IF gone = {} THEN {} ELSE {Min(gone)})
+SomeRefused == \E kind \in RefusedKinds : \E f \in RefusedArgs : \E g \in RefusedArgs :
+                  /\ ~(MAbsent(f, NFields, DOMAIN para) /\ MAbsent(g, NFields, DOMAIN para))   \* (both absent: recorded traces only)
+                  /\ Refused(kind, f, g)
 \* bounded enumeration: the kinds of mutation of the mode; fresh tokens (ids beyond those of
 \* MMkRecs), sizes from the mode
 Fresh == 1000 * (nmut + 1)
@@ -536,6 +605,9 @@ Mutate == /\ phase = "parsed" /\ nmut < mode.maxmut
                 /\ \A i \in 1..Len(hist) : hist[i][1] # "reorder"    \* bounded enumeration: one per history (recorded traces: any number)
                 /\ \E kind \in ReorderAll \cup ReorderOne \cup ReorderRel :
                       \E f \in DOMAIN para \cup {0} : \E g \in DOMAIN para \cup {0} : Reorder(kind, f, g)
+             \/ /\ "refused" \in Kinds /\ DOMAIN para # {}
+                /\ \A i \in 1..Len(hist) : hist[i][1] # "refused"    \* bounded enumeration: one per history (recorded traces: any number)
+                /\ SomeRefused
 \* another object may also have been configured BEFORE this one is created
 PreOther == /\ phase = "build" /\ para = <<>> /\ hist = <<>> /\ nmut < mode.maxmut
             /\ "other" \in Kinds
@@ -548,9 +620,15 @@ PreReorder == /\ phase = "build" /\ NoDumpYet /\ nmut < mode.maxmut
               /\ \E kind \in ReorderAll \cup ReorderOne \cup ReorderRel :
                     \E f \in DOMAIN para \cup {0} : \E g \in DOMAIN para \cup {0} : Reorder(kind, f, g)
 
+\* ... or be the target of a refused call BEFORE its first dump (once)
+PreRefused == /\ phase = "build" /\ NoDumpYet /\ nmut < mode.maxmut
+              /\ "refused" \in Kinds
+              /\ Cardinality(DOMAIN para) = mode.maxf
+              /\ SomeRefused
+
 Next == \/ /\ phase = "build" /\ Cardinality(DOMAIN para) < mode.maxf
            /\ \E sh \in (IF mode.uniform THEN {shape} ELSE ModeShapes) : \E f \in 1..NFields : Build(f, sh)
-        \/ Widths \/ Write \/ Parse \/ Load \/ Mutate \/ PreOther \/ PreReorder
+        \/ Widths \/ Write \/ Parse \/ Load \/ Mutate \/ PreOther \/ PreReorder \/ PreRefused
 
 Spec == Init /\ [][Next]_vars
 
@@ -578,10 +656,15 @@ TypeOK == /\ phase \in {"build", "widths", "dumped", "parsed"} /\ res \in {"ok",
           /\ ~start.set /\ cls = "Release" => start.beh = Apt
           /\ DOMAIN fold = DOMAIN para /\ \A f \in DOMAIN fold : fold[f] \in BOOLEAN
           /\ ~ReorderStoresPlainKeys => \A f \in DOMAIN fold : fold[f]
+          /\ DOMAIN linked = DOMAIN para /\ \A f \in DOMAIN linked : linked[f] \in BOOLEAN
+          /\ ~RefusedUnlinksFirst => \A f \in DOMAIN linked : linked[f]
 
 \* the key set answers look-ups in any spelling, whatever was done to the ORDER of the fields:
 \* every present field is found (by the class's own lower-case look-ups, by obj[f], del obj[f], f in obj)
 KeysFold == \A f \in DOMAIN para : f \in Visible
+
+\* ... and every present field is reached by iteration (= written by dump()), whatever calls were refused
+KeysListed == \A f \in DOMAIN para : linked[f]
 
 \* dump() is defined for EVERY subset of the structured fields
 DumpTotal == phase # "build" => res = "ok"
@@ -612,8 +695,11 @@ EditIsLocal == [][(Len(hist') = Len(hist) + 1 /\ hist'[Len(hist')][1] = "setsize
                     /\ \A q \in 1..Len(para[e[2]].recs) : q # e[3] => para'[e[2]].recs[q] = para[e[2]].recs[q]]_vars
 \* a step of another object, a rejected assignment, or a re-ordering of the fields changes nothing
 \* of the records and the option of this one
-OtherIsOther == [][(Len(hist') = Len(hist) + 1 /\ hist'[Len(hist')][1] \in {"other", "setbehfails", "reorder"}) =>
+OtherIsOther == [][(Len(hist') = Len(hist) + 1 /\ hist'[Len(hist')][1] \in {"other", "setbehfails", "reorder", "refused"}) =>
                      (para' = para /\ opt'.beh = opt.beh /\ opt'.set = opt.set)]_vars
+\* a refused call changes nothing at all of the object (error atomicity)
+RefusedIsAtomic == [][(Len(hist') = Len(hist) + 1 /\ hist'[Len(hist')][1] = "refused") =>
+                        (para' = para /\ opt' = opt /\ fold' = fold /\ linked' = linked /\ cache' = cache)]_vars
 
 \* every parsed record carries exactly the documented sub-field names, in the documented order
 SubFieldNames == phase = "parsed" =>
@@ -661,7 +747,7 @@ XMode(name, configs, shapes, uniform, maxf, heavy, emitmod, maxmut, mutsizes, fl
     [name |-> name, configs |-> configs, shapes |-> shapes, uniform |-> uniform, maxf |-> maxf,
      heavy |-> heavy, emitmod |-> emitmod, maxmut |-> maxmut, mutsizes |-> mutsizes, flimit |-> flimit,
      kinds |-> kinds, origins |-> origins, others |-> others]
-ListKinds == {"append", "setsize", "assign", "delete", "reorder"}
+ListKinds == {"append", "setsize", "assign", "delete", "reorder", "refused"}
 HMode(name, configs, shapes, uniform, maxf, heavy, emitmod, maxmut, mutsizes, flimit) ==
     XMode(name, configs, shapes, uniform, maxf, heavy, emitmod, maxmut, mutsizes, flimit, ListKinds, {"built"}, {})
 Mode(name, configs, shapes, uniform, maxf, heavy, emitmod) ==
@@ -691,8 +777,8 @@ LiveConfigs  == {<<"Release", Apt>>, <<"Release", Dak>>, <<"Release", "default">
 \* the other live objects: <<class, value assigned to its size_field_behavior ("-": none)>>
 LiveOthers   == {<<"Release", Apt>>, <<"Release", Dak>>, <<"PdiffIndex", "-">>, <<"Changes", "-">>}
 LiveOthersT  == LiveOthers \cup {<<"Release", "-">>, <<"Dsc", "-">>}
-LiveKinds    == {"setbeh", "other", "setbehfails", "reorder"}
-LiveKindsT   == {"setbeh", "other", "setbehfails", "setsize", "reorder"}
+LiveKinds    == {"setbeh", "other", "setbehfails", "reorder", "refused"}
+LiveKindsT   == {"setbeh", "other", "setbehfails", "setsize", "reorder", "refused"}
 
 \* quick tier (two TLC runs in parallel)
 ModesQuick ==
@@ -701,7 +787,7 @@ ModesQuick ==
     Mode("pairs",    PairConfigs,  ShapesPairsQuick,   FALSE, 2,  TRUE,  1),
     HMode("hist",    HistConfigs,  ShapesHist,         FALSE, 1,  TRUE,  8, 2, {1, 7}, 4),
     HMode("histP",   PdiffConfig,  ShapesHist,         FALSE, 1,  TRUE,  7, 2, {1, 7}, 2),
-    XMode("alias",   AliasConfigs, ShapesAlias,        FALSE, 1,  TRUE,  6, 2, {1, 7}, 2, {"setsize", "append", "reorder"}, {"parsed"}, {}),
+    XMode("alias",   AliasConfigs, ShapesAlias,        FALSE, 1,  TRUE,  6, 2, {1, 7}, 2, {"setsize", "append", "reorder", "refused"}, {"parsed"}, {}),
     XMode("live",    LiveConfigs,  ShapesLive,         FALSE, 1,  TRUE,  7, 2, {7}, 1, LiveKinds, {"built"}, LiveOthers) }
 ModesQuickP ==
   { Mode("subsetsP", PdiffConfig,  ShapesSubsetsP1,    TRUE,  14, FALSE, 24) }
@@ -713,7 +799,7 @@ ModesThorough ==
     Mode("full4",    HistConfigs,  ShapesPairsQuick,   FALSE, 4,  TRUE,  4),
     HMode("hist",    AllConfigs,   ShapesHist,         FALSE, 1,  TRUE,  6, 2, {1, 7, 17}, 4),
     HMode("hist2",   AllConfigs,   ShapesHist,         FALSE, 2,  TRUE,  4, 1, {1, 7}, 4),
-    XMode("alias",   AllConfigs,   ShapesAlias,        FALSE, 1,  TRUE,  7, 2, {1, 7}, 4, {"setsize", "append", "delete", "reorder"}, {"parsed", "built"}, {}),
+    XMode("alias",   AllConfigs,   ShapesAlias,        FALSE, 1,  TRUE,  7, 2, {1, 7}, 4, {"setsize", "append", "delete", "reorder", "refused"}, {"parsed", "built"}, {}),
     XMode("live",    LiveConfigs \cup {<<"Changes", "-">>}, ShapesLive, FALSE, 1, TRUE, 8, 2, {7}, 1, LiveKindsT, {"built", "parsed"}, LiveOthersT) }
 ModesThoroughP ==
   { Mode("subsetsP", PdiffConfig,  ShapesSubsetsP,     TRUE,  14, TRUE,  2) }
@@ -725,5 +811,6 @@ ModesNegCache     == { HMode("neg", AllConfigs,     ShapesHist, FALSE, 1, TRUE, 
 ModesNegShared    == { XMode("neg", AliasConfigs,   ShapesAlias, FALSE, 1, TRUE, 1, 1, {7}, 1, {"setsize"}, {"parsed", "built"}, {}) }
 ModesNegStoreFirst == { XMode("neg", {<<"Release", Dak>>, <<"Release", "default">>}, ShapesLive, FALSE, 1, TRUE, 1, 1, {7}, 1, {"setbehfails"}, {"built"}, {}) }
 ModesNegPlain     == { XMode("neg", {<<"Release", Apt>>, <<"Release", Dak>>, <<"PdiffIndex", "-">>, <<"Dsc", "-">>}, ShapesLive, FALSE, 1, TRUE, 1, 1, {7}, 1, {"reorder"}, {"built", "parsed"}, {}) }
+ModesNegRefused   == { XMode("neg", {<<"Release", Apt>>, <<"Release", Dak>>, <<"PdiffIndex", "-">>, <<"Dsc", "-">>}, ShapesLive, FALSE, 1, TRUE, 1, 1, {7}, 1, {"refused"}, {"built", "parsed"}, {}) }
 ModesNegClassOpt  == { XMode("neg", LiveConfigs,    ShapesLive,  FALSE, 1, TRUE, 1, 2, {7}, 1, LiveKinds, {"built"}, LiveOthers) }
 =============================================================================
